@@ -163,7 +163,8 @@ def unexpected_stop(stop):
 def generic_run(pid, params, knobs=None, policy='complete', plan_kw=None,
                 modes=('none', 'sched', 'lossy'), monitors=None,
                 end_check=None, probe_key=None, world_cfg=None, opts=None,
-                prog_hook=None, own_rules=None, lifecycle=None):
+                prog_hook=None, own_rules=None, lifecycle=None,
+                manual=None, commands=False):
     """Run one E1 case with the standard monitors; returns the driver dict.
 
     probe_key: name of the probe that makes a run non-trivial for ``pid``.
@@ -192,7 +193,10 @@ def generic_run(pid, params, knobs=None, policy='complete', plan_kw=None,
         o['startcp'] = case.prog.pstr(case.prog.start)
     if case.prog.hold is not None:
         o['holdcp'] = case.prog.pstr(case.prog.hold)
-    mons = [LaunchMonitor(), InvariantMonitor(relaxed=(mode == 'lossy'))]
+    mons = [LaunchMonitor(manual=manual) if manual is not None
+            else LaunchMonitor(),
+            InvariantMonitor(relaxed=(mode == 'lossy'), manual=manual,
+                             commands=commands)]
     mons += list(monitors or [])
     res = run_case(case, monitors=mons, lifecycle=lifecycle)
     if res.error:
